@@ -78,7 +78,9 @@ pub enum Op {
     Poll { task: Slot, kind: PollKind, ready: bool },
     DropTask { task: Slot },
     // ---- #[trace] twins
-    Twin { f: u8, arg: u32, traced: bool },
+    /// calls the plain and then the #[trace] twin `f` of the corpus with arguments derived from
+    /// `arg`; the traced call runs with the span in `slot` as local parent (None: no local parent)
+    Twin { f: u8, arg: u32, slot: Option<Slot> },
     /// tracing calls issued from a thread-local destructor while the thread is being torn down;
     /// early = the destructor is registered before fastrace's own thread-locals (runs after them)
     TeardownCalls { early: bool },
